@@ -42,10 +42,12 @@ func (x *Exec) recordStatus(st *State, w *Term, code *Term) {
 
 func init() {
 	models["net/http.Error"] = func(x *Exec, fr *Frame, st *State, pc *preparedCall, k func(*State, []Value)) {
+		x.statusCodeObligation(fr, st, pc, "http.Error", pc.args[2].(IntV).T)
 		x.recordStatus(st, x.asTerm(pc.args[0]), pc.args[2].(IntV).T)
 		k(st, nil)
 	}
 	models["net/http.ResponseWriter.WriteHeader"] = func(x *Exec, fr *Frame, st *State, pc *preparedCall, k func(*State, []Value)) {
+		x.statusCodeObligation(fr, st, pc, "ResponseWriter.WriteHeader", pc.args[0].(IntV).T)
 		x.recordStatus(st, x.asTerm(pc.recv), pc.args[0].(IntV).T)
 		k(st, nil)
 	}
